@@ -286,7 +286,12 @@ func main() {
 		wg.Add(1)
 		go func(i int, mp string) {
 			defer wg.Done()
-			s, out, err := worker(append(base, "VSIM_MODE=hash", "VSIM_FROM=0", "VSIM_N="+strconv.Itoa(detRuns), "GOMAXPROCS="+mp, "VSIM_OUT="), 20*time.Minute)
+			// the third process starts in the middle of the range: a run must not depend on the runs before it
+			from, n := 0, detRuns
+			if i == 2 {
+				from, n = detRuns/2, detRuns-detRuns/2
+			}
+			s, out, err := worker(append(base, "VSIM_MODE=hash", "VSIM_FROM="+strconv.Itoa(from), "VSIM_N="+strconv.Itoa(n), "GOMAXPROCS="+mp, "VSIM_OUT="), 20*time.Minute)
 			if err != nil {
 				detErr[i], detOut[i] = err, out
 				return
@@ -301,8 +306,9 @@ func main() {
 		}
 	}
 	for k, v := range detHashes[0] {
-		if detHashes[1][k] != v || detHashes[2][k] != v {
-			die(2, "determinism self-check FAILED for run %s: %s / %s / %s (GOMAXPROCS 1/4/16)", k, v, detHashes[1][k], detHashes[2][k])
+		v2, in2 := detHashes[2][k]
+		if detHashes[1][k] != v || (in2 && v2 != v) {
+			die(2, "determinism self-check FAILED for run %s: %s / %s / %s (GOMAXPROCS 1/4/16; the third process starts mid-range)", k, v, detHashes[1][k], v2)
 		}
 	}
 
@@ -463,7 +469,7 @@ func main() {
 			die(2, "replay of %s is not deterministic: got signature %q, want %q", final, rs.Replay.Signature, sig)
 		}
 		if minimised && s.Replay.EventHash != rs.Replay.EventHash {
-			exact = fmt.Sprintf("fresh-process replay gave the same violation but a different event hash (%s vs %s)", s.Replay.EventHash, rs.Replay.EventHash)
+			die(2, "replay of %s is not exact: same violation but a different event hash (%s vs %s) - some state leaks between runs or a source of nondeterminism is not behind a seam", final, s.Replay.EventHash, rs.Replay.EventHash)
 		}
 		reportLines = append(reportLines, fmt.Sprintf("violation class %q (%d run(s)); minimised=%v tape_len=%d; %s\n  detail: %s", sig, len(bySig[sig]), minimised, rs.Replay.TapeLen, exact, rs.Replay.Detail))
 		reportLines = append(reportLines, fmt.Sprintf("VIOLATION property=%s replay=%s", *prop, final))
@@ -503,7 +509,7 @@ func main() {
 			"workers":             nw,
 			"instrumentation":     instStats,
 			"real_vs_stub":        info.Info["real_vs_stub"],
-			"determinism_check":   fmt.Sprintf("%d tapes x 3 fresh processes (GOMAXPROCS 1/4/16): identical case hashes and verdicts", detRuns),
+			"determinism_check":   fmt.Sprintf("%d tapes x 3 fresh processes (GOMAXPROCS 1/4/16, the third starting mid-range): identical case hashes and verdicts", detRuns),
 			"known_findings_seen": knownSeen,
 			"unlisted_violation_classes": unlisted,
 			"build_s":             buildS,
